@@ -7,7 +7,7 @@ import urllib.parse
 from hv import hx
 
 RULE = ('redirect chains of length 0..5 (thorough: 0..12) over {301,302,307}, each hop with a relative (absolute-path, with '
-        'and without query) or absolute (http://host[/path][?query], six origins) Location, final codes {200,201,404,500,303}, '
+        'and without query) or absolute (http://host[/path][?query], six origins) Location, final codes = every modelled status the client does not follow, origins answering with Content-Length or chunked framing, '
         'bodies 0..200 bytes, methods GET/DELETE/POST/PUT, 0..2 cookies, follow on/off, initial URL with and without '
         'path/query; every hop has decoy entries (old query inherited, query dropped, other origin); second stream of '
         'unsupported/malformed Locations (model vs implementation only); non-trivial = chain of >= 1 hop followed')
@@ -17,13 +17,15 @@ ASSUMPTIONS = ['Client::parse_url appends :80, so the mock origins listen on por
                'the build without the `tls` feature is modelled: an https Location ends in the TLS-not-enabled error']
 
 REDIR = [301, 302, 307]
-FINAL = [200, 201, 404, 500, 303]
+# every status Humphrey models that the client does not follow (the mock frames all of them alike)
+FINAL = [100, 101, 200, 201, 202, 203, 204, 205, 206, 300, 303, 304, 305, 400, 401, 403, 404, 405, 406, 407, 408, 409, 410, 411, 412, 413,
+         414, 415, 416, 417, 500, 501, 502, 503, 504, 505]
 SEGS = ['a', 'b', 'docs', 'x.html', 'img', 'v1', 'a%20b', 'A', 'b', 'a']
 ERRS = {b'Invalid URL': 'InvalidURL', b'No location header': 'NoLocation', b'TLS feature is not enabled': 'TLS'}
 
 
-def ent(h, t, c, l, b):
-    return '%d:%s:%d:%s:%s' % (h, hx(t), c, hx(l) if l is not None else '-', hx(b))
+def ent(h, t, c, l, b, chunked=False):
+    return '%d:%s:%d:%s:%s' % (h, hx(t), c, hx(l) if l is not None else '-', hx(b)) + (':c' if chunked else '')
 
 
 def rpath(rng):
@@ -87,13 +89,14 @@ def gen_chain(rng, maxlen):
         cur = (nh, np_, nq)
     fcode = rng.choice(FINAL)
     fbody = bytes(rng.getrandbits(8) for _ in range(rng.choice([0, 1, 5, rng.randint(0, 200)])))
-    floc = '/elsewhere' if fcode == 303 else None
+    floc = '/elsewhere' if fcode in (300, 303, 305) else None
     table[walk[-1]] = (fcode, floc, fbody)
     if not follow:
         walk = walk[:1]
     first = table[walk[0]] if not follow else None
     final = (first[0], first[2]) if first else (fcode, fbody)
-    ents = [ent(h, t, c, l, b) for (h, t), (c, l, b) in table.items()]
+    # origins frame their answers with Content-Length or with chunked coding (the client must return the same either way)
+    ents = [ent(h, t, c, l, b, rng.random() < 0.4) for (h, t), (c, l, b) in table.items()]
     rng.shuffle(ents)
     line = 'redirect %s %s %s %s %s %s' % (method, hx(url), hx(body) if body else '-', fmode,
                                           '+'.join('%s=%s' % (hx(k), hx(v)) for k, v in cookies) or '-', ','.join(ents) or '-')
